@@ -91,9 +91,11 @@ theorem C03_step (H : Bytes → Bytes) (s : St) (hI : SInv s) (op : Op) (hne : o
     | some x =>
       simp only [stepOp, actorRoot, hh, Option.bind_some]
       have hl := handle?_live hh
-      have hok := clearPrefix_ok H s.hp x.t hI.wf (hI.roots h x hl) p
-      obtain ⟨h1, h2⟩ := mut_step hI hl hok (guard_target rfl hI hg)
-      exact ⟨h1, fun k' y hk hne' => h2 k' y hk (fun e => hne' (by rw [e]; rfl))⟩
+      split
+      · exact hnone _ _
+      · have hok := clearPrefix_ok H s.hp x.t hI.wf (hI.roots h x hl) p
+        obtain ⟨h1, h2⟩ := mut_step hI hl hok (guard_target rfl hI hg)
+        exact ⟨h1, fun k' y hk hne' => h2 k' y hk (fun e => hne' (by rw [e]; rfl))⟩
   | clrl h p n =>
     cases hh : s.handle? h with
     | none => simp only [stepOp, actorRoot, hh]; exact hnone _ _
@@ -272,7 +274,9 @@ theorem winv_step (H : Bytes → Bytes) (s : St) (hW : WInv s) (op : Op) : WInv 
     | none => simp only [stepOp, hh]; exact hW
     | some x =>
       simp only [stepOp, hh]
-      exact winv_mut hW (handle?_get hh) (clearPrefix_ok H s.hp x.t hW.wf (hW.roots h x (handle?_get hh)) p)
+      split
+      · exact hW
+      · exact winv_mut hW (handle?_get hh) (clearPrefix_ok H s.hp x.t hW.wf (hW.roots h x (handle?_get hh)) p)
   | clrl h p n =>
     cases hh : s.handle? h with
     | none => simp only [stepOp, hh]; exact hW
